@@ -297,9 +297,18 @@ def det_factory(case: dict, log: dict):
     K = case.get("anon", 0) or 0
 
     async def anon(self, ctx, ev):
-        if case.get("anon_d"):
-            await asyncio.sleep(case["anon_d"])
-        return ge.E4()
+        ent = {"life": log["life"], "t_in": VClock.t, "t_out": None, "exit": None}
+        log.setdefault("anon", []).append(ent)
+        try:
+            if case.get("anon_d"):
+                await asyncio.sleep(case["anon_d"])
+            ent["exit"] = "returned"
+            return ge.E4()
+        except asyncio.CancelledError:
+            ent["exit"] = "cancelled"
+            raise
+        finally:
+            ent["t_out"] = VClock.t
 
     async def start(self, ctx, ev):
         log.setdefault("start", []).append({"life": log["life"], "t": VClock.t})
